@@ -666,4 +666,131 @@ def linRunProg (prog : List LStmt) (s : LinState) : List LinEvent → Option Lin
       | none => none
   | .predict _ :: es => linRunProg prog s es
 
+/-! ## Phase 5: translator target for `_pmf` (linucb.py; lints.py with `v = 0`): the assignments after the feature
+matrix is built as a straight-line program over numpy-like values, then the selection
+`np.where(vals == np.amax(vals))[0]` / `[int(ind in max_indexes)/len(max_indexes) for ind in range(len(actions))]` -/
+
+/-- the largest entry (`np.amax`); 0 for the empty list (numpy raises there; `_pmf` is never called without actions) -/
+def maxQ : List Rat → Rat
+  | [] => 0
+  | x :: r => r.foldl max x
+
+/-- `_pmf`'s last two lines, literally: `max_indexes = np.where(vals == top)[0]`, then
+`[int(ind in max_indexes)/len(max_indexes) for ind in range(len(actions))]` -/
+def selectEq (vals : List Rat) (top : Rat) : List Rat :=
+  vals.map (fun v => if v = top then 1 / ((vals.countP (fun w => w = top) : Nat) : Rat) else 0)
+
+/-- … with `top = np.amax(vals)`: probability `1/#maximisers` on every maximiser of `vals`, 0 elsewhere -/
+def pmfOfValues (vals : List Rat) : List Rat := selectEq vals (maxQ vals)
+
+/-- `_pmf` of LinUCB: action value = θ·f + α·√(fᵀA⁻¹f) (the square root is a parameter: ℚ has none; the harness
+supplies CPython's `math.sqrt` on the bounds that occur), then the uniform distribution on the maximisers -/
+def LinState.pmf (sq : Rat → Rat) (alpha : Rat) (s : LinState) (fs : List (List Rat)) : List Rat :=
+  pmfOfValues (fs.map (fun f => (s.score f).1 + alpha * sq (s.score f).2))
+
+/-- `_pmf` of LinTS with `v = 0`, literally: `np.where(est.round(5) == np.amax(est).round(5))`, est = μ̂·f per action
+(the rounding is a parameter like `sq`; for a monotone rounding this is `pmfOfValues` of the rounded estimates:
+`pmfTS_eq_pmfOfValues`) -/
+def LinState.pmfTS (rnd : Rat → Rat) (s : LinState) (fs : List (List Rat)) : List Rat :=
+  selectEq (fs.map (fun f => rnd (s.score f).1)) (rnd (maxQ (fs.map (fun f => (s.score f).1))))
+
+inductive PVal
+  | s (q : Rat) | v (xs : List Rat) | m (rows : List (List Rat)) | cols (fs : List (List Rat)) | bad
+
+/-- `feats` is the d×K matrix whose columns are the actions' encodings (`np.array([...]).T` in linucb.py,
+`features.T` in lints.py); `fn1` is the unary numpy function of the program (`np.sqrt` / `.round(5)`) -/
+inductive PExp
+  | theta | ainv | feats | alpha | var (i : Nat)
+  | matmul (a b : PExp) | einsumCols (a b : PExp) | fn1 (a : PExp) | amax (a : PExp)
+  | add (a b : PExp) | mul (a b : PExp)
+
+/-- `@`: vector @ (d×K) = the K dot products; (d×d) @ (d×K) = the K matrix-vector products -/
+def PVal.matmul : PVal → PVal → PVal
+  | .v a, .cols fs => .v (fs.map (dotQ a))
+  | .m a, .cols fs => .cols (fs.map (matVecQ a))
+  | _, _ => .bad
+
+/-- `np.einsum('ij,ij->j', X, Y)`: column by column dot products -/
+def PVal.einsumCols : PVal → PVal → PVal
+  | .cols x, .cols y => .v (List.zipWith dotQ x y)
+  | _, _ => .bad
+
+def PVal.fn1 (g : Rat → Rat) : PVal → PVal
+  | .s a => .s (g a)
+  | .v a => .v (a.map g)
+  | _ => .bad
+
+def PVal.arith (op : Rat → Rat → Rat) : PVal → PVal → PVal
+  | .s a, .s b => .s (op a b)
+  | .v a, .v b => .v (List.zipWith op a b)
+  | .s a, .v b => .v (b.map (fun x => op a x))
+  | .v a, .s b => .v (a.map (fun x => op x b))
+  | _, _ => .bad
+
+/-- `np.amax` of a vector -/
+def PVal.amax : PVal → PVal
+  | .v a => .s (maxQ a)
+  | _ => .bad
+
+def PExp.eval (g : Rat → Rat) (st : LinState) (fs : List (List Rat)) (alpha : Rat) (env : List PVal) : PExp → PVal
+  | .theta => .v st.theta
+  | .ainv => .m st.ainv
+  | .feats => .cols fs
+  | .alpha => .s alpha
+  | .var i => env.getD i .bad
+  | .matmul a b => (a.eval g st fs alpha env).matmul (b.eval g st fs alpha env)
+  | .einsumCols a b => (a.eval g st fs alpha env).einsumCols (b.eval g st fs alpha env)
+  | .fn1 a => (a.eval g st fs alpha env).fn1 g
+  | .amax a => (a.eval g st fs alpha env).amax
+  | .add a b => PVal.arith (· + ·) (a.eval g st fs alpha env) (b.eval g st fs alpha env)
+  | .mul a b => PVal.arith (· * ·) (a.eval g st fs alpha env) (b.eval g st fs alpha env)
+
+/-- the locals in order of assignment -/
+def runAssigns (g : Rat → Rat) (st : LinState) (fs : List (List Rat)) (alpha : Rat) : List PExp → List PVal → List PVal
+  | [], env => env
+  | e :: ps, env => runAssigns g st fs alpha ps (env ++ [e.eval g st fs alpha env])
+
+/-- the whole body: the assignments, then the selection `np.where(lhs == top)[0]` and the returned comprehension
+(LinUCB: `lhs` = the local holding the action values, `top` = `np.amax` of it; LinTS: `lhs` = estimates`.round(5)`,
+`top` = `np.amax(estimates).round(5)`) -/
+def runPredict (g : Rat → Rat) (prog : List PExp) (lhs top : PExp) (st : LinState) (fs : List (List Rat)) (alpha : Rat) :
+    Option (List Rat) :=
+  let env := runAssigns g st fs alpha prog []
+  match lhs.eval g st fs alpha env, top.eval g st fs alpha env with
+  | .v vals, .s t => some (selectEq vals t)
+  | _, _ => none
+
+/-- the prediction of every `predict` event of a history, `run` being how one prediction is computed from the state -/
+def linRunPredict (run : LinState → List (List Rat) → Option (List Rat)) (s : LinState) : List LinEvent → List (Option (List Rat))
+  | [] => []
+  | .learn f r :: es => linRunPredict run (s.learn f r) es
+  | .predict fs :: es => run s fs :: linRunPredict run s es
+
+/-- a finite table as a function (the harness sends CPython's `math.sqrt` / `round(·,5)` on the arguments that occur) -/
+def tableFn (tab : List (Rat × Rat)) (x : Rat) : Rat :=
+  match tab.find? (fun p => p.1 = x) with
+  | some p => p.2
+  | none => 0
+
+/-! ## Phase 5: the equal-length no-collision condition for a whole call (decidable on the inputs) -/
+
+/-- the letters of a term regrouped by namespace in order of first occurrence (`xax ↦ xxa`): two terms with the same
+regrouping have the same factors, hence the same monomials -/
+def canonTerm (t : List Char) : List Char := (factors t).flatMap (fun kp => List.replicate kp.2 kp.1)
+
+/-- the length of the first feature name of the first namespace (named by a term) that has one; 0 when there is none -/
+def callL (is : List Inter) (kw : List (Char × NsVal)) : Nat :=
+  match ((strTerms is).flatten.flatMap (fun c => (featsSparse kw c).map (fun p => p.1.length))) with
+  | [] => 0
+  | l :: _ => l
+
+/-- checkable sufficient condition for a collision-free sparse call: every feature name of every namespace named by a
+term has length `L ≥ 1`, no two terms are the same up to regrouping of their letters, and the constant entry (`const`,
+5 characters) is absent or `L ∤ 5` -/
+def equalLenOK (L : Nat) (is : List Inter) (kw : List (Char × NsVal)) : Bool :=
+  decide (1 ≤ L)
+  && (strTerms is).all (fun t => t.all (fun c => (featsSparse kw c).all (fun p => p.1.length == L)))
+  && !hasDup ((dedupFirst (strTerms is)).map canonTerm)
+  && (decide (constant is = 0) || decide (5 % L ≠ 0))
+
 end Coba.C20
